@@ -51,6 +51,9 @@ def make_op(o: int, nops: int, positions: List[int], curved: bool = True):
         base = [pos_coords(base_pos(o, k)) for k in range(1, 9)]
         mid = [(base[4][i] + base[5][i]) / 2 for i in range(3)]
         op.top_face.add_edge(0, cb.Arc([mid[0], mid[1] - 0.2, mid[2] + 0.05]))
+        # an arc given by its centre: its arc point is DERIVED from where the two vertices are when it is written
+        m01 = [(base[0][i] + base[1][i]) / 2 for i in range(3)]
+        op.bottom_face.add_edge(0, cb.Origin([m01[0], m01[1] + 0.8, m01[2] - 0.1]))
         a, b = base[2], base[6]
         op.add_side_edge(2, cb.Spline([[a[i] + (b[i] - a[i]) * t + (0.1 if i == 1 else 0.0) for i in range(3)] for t in (0.3, 0.7)]))
     return op
